@@ -78,6 +78,30 @@ pub fn lj_shape(spec: &ShapeSpec) -> Option<LJShape2> {
     }
 }
 
+/// Package values are built from the package's own constructors and then assigned field by field, never by struct
+/// literals: a field added to one of these types must not stop the harness from compiling.
+pub fn lj2(x: f64, y: f64, sigma: f64, epsilon: f64, cutoff: Option<f64>) -> packing::LJ2 {
+    let mut a = packing::LJ2::new(x, y, sigma);
+    a.epsilon = epsilon;
+    a.cutoff = cutoff;
+    a
+}
+
+pub fn lj_molecule(name: &str, items: Vec<packing::LJ2>) -> LJShape2 {
+    let mut s = LJShape2::circle();
+    s.name = name.to_string();
+    s.items = items;
+    s
+}
+
+pub fn custom_wallpaper_group<'a>(name: &'a str, family: packing::CrystalFamily, listing: Vec<&'a str>) -> WallpaperGroup<'a> {
+    let mut g = get_wallpaper_group(WallpaperGroups::p1).expect("get_wallpaper_group");
+    g.name = name;
+    g.family = family;
+    g.wyckoff_str = listing;
+    g
+}
+
 /// the oracle's own description of the requested shape (from the documentation of the constructors)
 pub fn oshape_from_spec(spec: &ShapeSpec) -> OShape {
     match spec {
